@@ -379,8 +379,12 @@ def proof_obligations(run, props_file, module, targets, extra_files=()):
     run.coverage['checker_cmd'] = 'make -C /verif/coq -j16 %s ; coqc Print Assumptions on %s' % (' '.join(targets), module)
     run.coverage['trusted_base'] = list(TRUSTED_BASE)
     if not ok:
+        # the correspondence layer may still build (Model/, Spec/, Corr/ contain no proofs): try it alone, so that the
+        # search for a concrete failing input can run even though a proof obligation broke
+        corr = [t for t in targets if '/Corr/' in t]
+        run.extra['corr_built_after_proof_failure'] = bool(corr) and build(corr)[0]
         m = re.search(r'File "([^"]+)", line (\d+).*?\n(Error:.*?)(?:\n\n|\Z)', log, flags=re.S)
-        what = 'Coq build failed: ' + (('%s:%s %s' % (m.group(1), m.group(2), m.group(3)[:600])) if m else log[-1500:])
+        what = ('Coq proof obligation failed: ' if run.extra.get('corr_built_after_proof_failure') else 'Coq build failed: ') + (('%s:%s %s' % (m.group(1), m.group(2), m.group(3)[:600])) if m else log[-1500:])
         run.broken.append(what)
         run.coverage['discharged'] = 0
         return False
